@@ -86,6 +86,9 @@ def norm_event(raw, prev_snapq_len):
             own_replies = rep
     out["notes"] = notes
     out["replies"] = own_replies
+    # conflict notices (lines `resolve ...`) pushed to any session
+    out["notices"] = {c: [ln.rstrip("\n") for ln in lines if ln.startswith("resolve ")]
+                      for c, lines in inbox.items() if any(ln.startswith("resolve ") for ln in lines)}
     out["authline"] = "-"
     out["rkeys"] = []
     out["rsorted"] = True
